@@ -5,7 +5,6 @@ Edwards addition of two of them is the affine addition of the specification.
 import Dalek.Proofs.RisSpec
 import Dalek.Proofs.RisAlgebra
 import Dalek.Props.C03.Formulas
-import Dalek.Gen.AlgEdwardsSh
 
 namespace Dalek.Proofs.Ris
 
@@ -79,6 +78,14 @@ theorem edwardsAdd_erep {p q : RistrettoDalek.RPt} {Q R : Ed}
   simp only [List.map_cons, List.map_nil, List.getD_cons_zero, List.getD_cons_succ, ZMod.natCast_zmod_val]
   exact hrep
 
+theorem getD_map_val_lt (l : List Fp) (i : Nat) : (l.map ZMod.val).getD i 0 < P := by
+  rw [List.getD_eq_getElem?_getD]
+  cases h : (l.map ZMod.val)[i]? with
+  | none => exact Bridge.P_pos
+  | some x =>
+    obtain ⟨z, -, hz⟩ := List.mem_map.1 (List.mem_of_getElem? h)
+    rw [Option.getD_some, ← hz]; exact ZMod.val_lt z
+
 /-- the outputs of the translated Edwards addition run by the model are canonical -/
 theorem edwardsAdd_lt {p q : RistrettoDalek.RPt}
     (hp : p.1 < P ∧ p.2.1 < P ∧ p.2.2.1 < P ∧ p.2.2.2 < P)
@@ -90,10 +97,9 @@ theorem edwardsAdd_lt {p q : RistrettoDalek.RPt}
     simp only [List.mem_cons, List.not_mem_nil, or_false]
     rintro n (h | h | h | h | h | h | h | h) <;> rw [h]
     exacts [hp.1, hp.2.1, hp.2.2.1, hp.2.2.2, hq.1, hq.2.1, hq.2.2.1, hq.2.2.2])]
-  simp only [List.map_cons, List.map_nil]
-  rw [AlgEdwards.add_sh_ok]
-  unfold AlgEdwards.add_sh RistrettoDalek.toRPt
-  simp only [List.map_cons, List.map_nil, List.getD_cons_zero, List.getD_cons_succ]
-  exact ⟨ZMod.val_lt _, ZMod.val_lt _, ZMod.val_lt _, ZMod.val_lt _⟩
+  generalize AProg.run zmodOps AlgEdwards.add _ = l
+  unfold RistrettoDalek.toRPt
+  dsimp only
+  exact ⟨getD_map_val_lt l 0, getD_map_val_lt l 1, getD_map_val_lt l 2, getD_map_val_lt l 3⟩
 
 end Dalek.Proofs.Ris
